@@ -259,6 +259,7 @@ def lemma_conditions(pid, tier):
         # retry: the real create_retry / _coerce_retry, and retry inside a run (calls, store read / write, modified-time query)
         cs.append(xhrun.Cond("harness_retry", "c10_retry", {}, timeout=600, label="retry_wrapper"))
         cs.append(xhrun.Cond("harness_retry", "c10_coerce", {}, timeout=300, label="retry_coerce"))
+        cs.append(xhrun.Cond("harness_retry", "c10_limits", {}, timeout=600, label="limits_handed_to_engine"))
         for rn in ((1, 2, 3) if tier == "quick" else (1, 2, 3, 4)):
             for rk in "crwm":
                 cs.append(xhrun.Cond("harness_retry", "c10_run", {"XH_RN": rn, "XH_RK": rk}, timeout=900, label=f"retry_run_n{rn}_{rk}", twin=(rn == 2)))
